@@ -11,11 +11,16 @@ PLAN = dict(
          "plus one case per configuration with requests of max+1, 4097, 65536 and 65537 bytes (all to be refused) and (thorough) one case "
          "that sleeps through the 6 s GM reseed time interval. c17.reader: 6-14 Read calls of sizes {0,1,max-1,max,max+1,5max+3,random} on the reader wrapper with a scripted "
          "entropy source. c17.faults (fault enumeration): configuration x {5 mon.FaultKind, stream ends} x source call index 0..6 "
-         "(0 entropy, 1 nonce, 2..5 reseeds, 6 control). distinct = class keys (configuration | operation / size or length class / "
+         "(0 entropy, 1 nonce, 2..5 reseeds, 6 control). c17.timerule (quick and thorough, avx2 only, one case): generators and reader "
+         "wrappers of all 28 configurations are created, the 6 s test-level interval is slept through once, then GM generators must refuse, "
+         "accept a Reseed and serve again (bytes equal to the model), NIST twins must serve, and the wrappers' Read must succeed with exactly one "
+         "reseed from the scripted source (Script.MaxBytes turns an endless reseed loop into a violation). distinct = class keys (configuration | operation / size or length class / "
          "additional input / position of the reseed counter / outcome); no case is trivial",
     jobs=both("c17.history", _CFG, shards=(2, 8), floor=2000)
     + both("c17.reader", _CFG, shards=(1, 4), floor=300)
-    + both("c17.faults", _CFG, shards=(1, 2), floor=1000),
+    + both("c17.faults", _CFG, shards=(1, 2), floor=1000)
+    # one case, one process, one sleep of 6.3 s: the GM reseed time rule in every tier
+    + [J("c17.timerule", configs=["avx2"], variant="asm", shards=(1, 1), floor=1)],
     exhaustive_note="c17.faults enumerates completely: 28 configurations (thorough: x every strength class of the wrapper) x 6 fault shapes x every entropy-source call index of a fixed "
                     "Read script that crosses the reseed interval four times (level fault_enumeration for that workload)",
     assumptions=["harness/ref/drbg implements SP 800-90A Rev.1 Hash_DRBG/HMAC_DRBG/CTR_DRBG(df) and the GM/T 0105 variations the package "
@@ -42,6 +47,6 @@ CLAIM = dict(
          "source failing or short at every call index (error required, no panic, persistent failure stays an error).",
     design_ref="DESIGN.md 6 (C17)",
     note="trusted: harness/ref/drbg (+ref/sm3, ref/sm4, Go stdlib hashes/AES), monotonic clock for the bracketed GM time rule; "
-         "the GM time rule is observed positively only in the thorough tier (one 6.3 s sleep)",
+         "the GM time rule is observed positively by one case per run (c17.timerule, one 6.3 s sleep; thorough adds a second case per configuration)",
     technique="history monitor against a reference state machine + scripted entropy source with fault enumeration + panic monitor",
 )
